@@ -12,12 +12,12 @@ Local Open Scope string_scope.
 (* the case is within the hypotheses and the oracle fails on the model's observation *)
 Definition refutes (fx : fixes) (txt : string) : bool :=
   match parse_hcase (tokens txt) with
-  | Some c => let m := hist_model fx c in c09_wf c (fst m) && negb (C09_holds_on c m)
+  | Some c => let m := hist_model fx c in c09_wf_h c (fst m) && negb (C09_holds_on_h c m)
   | None => false
   end.
 Definition satisfies (fx : fixes) (txt : string) : bool :=
   match parse_hcase (tokens txt) with
-  | Some c => let m := hist_model fx c in c09_wf c (fst m) && C09_holds_on c m
+  | Some c => let m := hist_model fx c in c09_wf_h c (fst m) && C09_holds_on_h c m
   | None => false
   end.
 
@@ -48,7 +48,19 @@ Proof. vm_compute. repeat split. Qed.
 
 (* each repair is needed on its own: with only the other two in place the witness still fails *)
 Lemma each_repair_needed :
-  refutes (mkFixes false true true) case_f6 = true /\
-  refutes (mkFixes true false true) case_f7 = true /\
-  refutes (mkFixes true true false) case_f12 = true.
+  refutes (mkFixes false true true true true) case_f6 = true /\
+  refutes (mkFixes true false true true true) case_f7 = true /\
+  refutes (mkFixes true true false true true) case_f12 = true.
 Proof. vm_compute. repeat split. Qed.
+
+(* zero-length data record: template 400 has one element, an octet array of FIXED length 0; the
+   record gives it a 1-byte value. Before the repair "data record of length zero: encode its
+   elements once" the nil buffer of a record with d.len = 0 counted as already encoded, nothing
+   was checked, and SendSet reported success with an empty record on the wire: the value was
+   dropped silently (clause (e)). Found by the thorough tier on the code as found. *)
+Definition case_zero_len : string :=
+  "tcp 1 0 full S P T 400 A 1 400 1 17 0 0 0 oct nil ; S P D 400 A 2 400 1 17 0 0 0 oct hex fc ;".
+Lemma refuted_zero_length_record : refutes (mkFixes true true true true false) case_zero_len = true.
+Proof. vm_compute. reflexivity. Qed.
+Lemma repaired_zero_length_record : satisfies cur case_zero_len = true.
+Proof. vm_compute. reflexivity. Qed.
